@@ -153,6 +153,7 @@ class Outcome:
         self.excluded_near_tie = 0
         self.traces_validated = 0
         self.stats: dict = {}
+        self.branches: dict = {}               # model branch tag -> number of updates of compared traces that took it (lean/FrourosModel/Branch.lean)
         self.rule = ""
         self.notes: list[str] = []
 
